@@ -53,10 +53,10 @@ static SequenceControlSet *scs_p;   /* calloc'ed (a 200 kB static would be zero-
 static EncodeContext ectx;
 static EbFifo fifo_in, fifo_out, fifo_rec;
 #ifdef SCS_STATIC
-/* typed static object: ~1 min of zero-initialisation in symbolic execution, but cheap field accesses --
+/* typed heap object with arbitrary contents (malloc): no zero-initialisation constraints to convert, cheap
+   field accesses, and a more general pre-state (set_parameter may run on a previously used scs) --
    the right trade for the queries that run all of copy_api_from_app/verify_settings on it */
-static SequenceControlSet scs_static;
-static void mk_scs(void) { scs_p = &scs_static; }
+static void mk_scs(void) { if (!scs_p) { scs_p = (SequenceControlSet *)malloc(sizeof(SequenceControlSet)); V_ASSUME(scs_p != NULL); } }
 #else
 static void mk_scs(void) { if (!scs_p) { scs_p = (SequenceControlSet *)calloc(1, sizeof(SequenceControlSet)); V_ASSUME(scs_p != NULL); } }
 #endif
@@ -94,11 +94,17 @@ void n_recon_buf(void)       { ERR(svt_av1_get_recon(mk_handle(), NULL)); V_END(
 void n_info_h(void)          { SvtAv1FixedBuf f; ERR(svt_av1_enc_get_stream_info(NULL, SVT_AV1_STREAM_INFO_FIRST_PASS_STATS_OUT, &f)); V_END(); }
 void n_info_out(void)        { ERR(svt_av1_enc_get_stream_info(mk_handle(), SVT_AV1_STREAM_INFO_FIRST_PASS_STATS_OUT, NULL)); V_END(); }
 
+static uint8_t v_some_buffer[16];
+#if __has_include("c14_fill.inc")
+#include "c14_fill.inc"
+#else
+static void fill_config(EbSvtAv1EncConfiguration *c) { vin_fill(c, sizeof *c); }
+#endif
 /* ---- M: a rejected configuration leaves the handle usable -------------- */
 void m_reject_then_accept(void) {
     EbComponentType *h = mk_handle();
     EbSvtAv1EncConfiguration bad, good;
-    vin_fill(&bad, sizeof bad);   /* arbitrary configuration */
+    fill_config(&bad);   /* arbitrary configuration, field by field */
     V_ASSUME(bad.manual_pred_struct_entry_num <= 2 || bad.manual_pred_struct_entry_num > 32);
     EbErrorType r1 = svt_av1_enc_set_parameter(h, &bad);
     V_ASSERT(mtx_cfg == 0, "configuration mutex released when set_parameter returns (any outcome)");
@@ -115,13 +121,21 @@ void m_reject_then_accept(void) {
 void s_validate_arbitrary_config(void) {
     EbSvtAv1EncConfiguration cfg;
     mk_scs();
-    vin_fill(&cfg, sizeof cfg);
+    fill_config(&cfg);
 #ifndef MANUAL_PS_MAX
 #define MANUAL_PS_MAX 2
 #endif
     /* bound: valid manual prediction structures longer than MANUAL_PS_MAX entries are outside the claim
        (out-of-range entry counts, negative included, stay inside) */
     V_ASSUME(cfg.manual_pred_struct_entry_num <= MANUAL_PS_MAX || cfg.manual_pred_struct_entry_num > 32);
+#ifdef NO_MANUAL_PS
+    V_ASSUME(!cfg.enable_manual_pred_struct);     /* the manual prediction structure is the subject of the *_manual_ps query */
+#endif
+#ifdef ONLY_MANUAL_PS
+    { EbSvtAv1EncConfiguration d; svt_svt_enc_init_parameter(&d);   /* everything but the manual prediction structure at its default */
+      d.enable_manual_pred_struct = cfg.enable_manual_pred_struct; d.manual_pred_struct_entry_num = cfg.manual_pred_struct_entry_num;
+      memcpy(d.pred_struct, cfg.pred_struct, sizeof d.pred_struct); d.source_width = 64; d.source_height = 64; cfg = d; }
+#endif
     set_default_configuration_parameters(&scs);
     copy_api_from_app(&scs, &cfg);
     EbErrorType r = verify_settings(&scs);
